@@ -183,7 +183,8 @@ def run_thread_reload(case) -> dict:
     from checks import offline, plan as P
     from ref import gkdi
 
-    _, seed, policy = case[2]
+    _, seed, policy = case[2][:3]
+    first_use = len(case[2]) > 3  # run in an interpreter in which nothing of the library has run yet (see "fresh" below)
     import random
 
     r = random.Random(seed)
@@ -196,8 +197,12 @@ def run_thread_reload(case) -> dict:
     if seed % 2:
         grp.append({"op": "load_key", "rk": 0, "fl": "thread", "group": 1})
     r.shuffle(grp)
+    if first_use:
+        # the process's very first decryptions of public-key records, all at the same time
+        pub = lambda k: dict(mk(k), mode="pub")  # noqa: E731
+        grp = [{"op": "unprotect", "fl": "thread", "group": 1, "net": "offline", "blob": pub(k)} for k in range(2 + seed % 2)]
     ops += grp + [{"op": "unprotect", "fl": "sync", "net": "offline", "blob": mk(2)}]
-    plan = {"seed": seed, "clock_ft": gkdi.interval_start_filetime(l0, 5, 5), "root_keys": [[9, offline.HASHES[seed % 4], offline.SECRETS[seed % 3]]],
+    plan = {"seed": seed, "clock_ft": gkdi.interval_start_filetime(l0, 5, 5), "root_keys": [[9, offline.HASHES[seed % 4], (offline.SECRETS[(seed // 2) % 3] if seed % 5 < 2 else "ECDH_P384") if first_use else offline.SECRETS[seed % 3]]],
             "caller_sids": [offline.SID_A], "ctx": {"kind": "stub", "legs": 2, "sig": 16}, "ops": ops, "threads": policy}
     tr = P.execute_plan(plan)
     viol = None
@@ -206,7 +211,7 @@ def run_thread_reload(case) -> dict:
         if ot.op["op"] == "unprotect" and (out.kind != "ok" or out.value != ot.plaintext):
             et, frame = drive.exc_sig(out)
             viol = common.violation("C05", "error-type" if out.kind == "raise" else "does-not-end", "threads", et, frame, "reload-while-unprotecting",
-                                    f"op {ot.idx}: a valid record gave {out.brief()} {out.exc!r} while another thread loaded the same root key again")
+                                    f"op {ot.idx}: a valid record gave {out.brief()} {out.exc!r} while " + ("other threads made the process's first public-key decryptions" if first_use else "another thread loaded the same root key again"))
             break
         if ot.op["op"] == "load_key" and out.kind != "ok":
             viol = common.violation("C05", "error-type", "threads", drive.exc_sig(out)[0], drive.exc_sig(out)[1], "load-key", f"load_key failed: {out.exc!r}")
@@ -230,7 +235,7 @@ class C05(common.Check):
             "0/1/2/true+-1/2^32-1); structure-aware DER mutants of every TLV node (emptied, dropped, duplicated, class/constructed bit "
             "flipped, high-tag form, leaf content shortened to every length / extended with consistent enclosing lengths, raw length octets: "
             "indefinite, 0, +-1, 2^32, 2^63, 2^64, non-minimal); whole-record garbage and PRNG byte "
-            "strings; well-formed records with long / odd domain and forest names; a cache on which an earlier load_key with unusable KDF parameters failed; valid records unprotected from caller threads while another thread loads the same root key again. Oracle: returns | needs-network | ValueError/NotImplementedError/NotEnougData/InvalidTag/InvalidUnwrap; <= 300 KDF "
+            "strings; well-formed records with long / odd domain and forest names; a cache on which an earlier load_key with unusable KDF parameters failed; valid records unprotected from caller threads while another thread loads the same root key again; 2..3 caller threads unprotecting public-key records as the first thing a new interpreter does with the library (sub-process per case). Oracle: returns | needs-network | ValueError/NotImplementedError/NotEnougData/InvalidTag/InvalidUnwrap; <= 300 KDF "
             "calls; <= 150000 + 400*len traced lines; <= 5 s of CPU time (backstop for work outside the interpreter: regular expressions, big numbers); address-space growth during the call <= 64 MiB + 64*len (kernel high-water mark); for the field mutations and a quarter of the others the undamaged blob is unprotected afterwards on the same "
             "cache and must still return its plaintext (locks created by the library are simulated: an acquire nobody can satisfy is the "
             "outcome 'blocks'). Non-trivial = stored bytes differ from a valid blob; distinct = distinct (blob, mutation).")
@@ -239,7 +244,7 @@ class C05(common.Check):
                   "network": "simulated, none reachable; attempts classified at the seam"}
     assumptions = ["budgets are 4x (KDF) and >20x (lines) the maxima observed on valid input and affine in input length",
                    "PRNG byte strings are a weak generator and stated as such"]
-    required_fired = ("rot", "tear", "field", "der", "garbage", "outcome_needs-network", "outcome_raise", "outcome_ok", "valid_blob_after_damaged_one", "names", "bad_load_key", "reload_while_unprotecting", "thread_overlap")
+    required_fired = ("rot", "tear", "field", "der", "garbage", "outcome_needs-network", "outcome_raise", "outcome_ok", "valid_blob_after_damaged_one", "names", "bad_load_key", "reload_while_unprotecting", "thread_overlap", "first_use_in_new_process")
 
     def exhaustive(self, tier):
         return tier == "thorough"
@@ -308,6 +313,10 @@ class C05(common.Check):
         for k in range(240 if tier == "quick" else 10000):
             pol = {"mode": "marks", "q": (0.3, 0.6, 0.9)[k % 3], "p": (0.0, 0.02)[(k // 3) % 2]} if k % 2 else threadpure.policy_for(k // 2, seams=False)
             out.append([0, 1, ["threload", rng.getrandbits(30), pol]])
+        for k in range(176 if tier == "quick" else 4000):
+            # ... and as the FIRST thing a new process does with the library (first-use initialisation shared by the threads)
+            pol = {"mode": "marks", "q": (0.2, 0.35, 0.5, 0.8)[k % 4], "p": (0.0, 0.0, 0.02)[(k // 4) % 3]} if k % 8 else {"mode": "prob", "p": (0.05, 0.2)[(k // 8) % 2]}
+            out.append([0, 1, ["fresh", ["threload", rng.getrandbits(30), pol, "first"]]])
         # garbage / PRNG byte strings
         n_rand = 3000 if tier == "quick" else 200000
         for i in range(n_rand):
@@ -328,6 +337,11 @@ class C05(common.Check):
         bi, with_key, fault = case
         if fault[0] == "threload":
             return run_thread_reload(case)
+        if fault[0] == "fresh":
+            v = common.run_case_fresh("C05", [bi, with_key, fault[1]])
+            if v:
+                v = {"sig": v["sig"] + "/first-use-in-process", "detail": "in a new process: " + v["detail"]}
+            return {"viol": v, "digest": "fresh:" + (v["sig"] if v else "ok"), "key": common.key_hash(case), "fired": {}, "probes": {"first_use_in_new_process": 1}, "vtime_ns": 0}
         b = blobs.catalogue(next(iter(blobs._CAT)))[bi]
         bad_load = None
         if fault[0] == "names":
@@ -379,7 +393,7 @@ class C05(common.Check):
         seen = set()
         for c in cases:  # one case of every mutation kind, so that nothing is imported for the first time under the memory watch
             k = (c[1], c[2][0])
-            if k not in seen and c[2][0] != "threload":
+            if k not in seen and c[2][0] not in ("threload", "fresh"):
                 seen.add(k)
                 try:
                     self.run_case(c)
